@@ -19,7 +19,7 @@ from .common import muted, rng, stable_hash, boundary_values
 
 LEVEL = 'exploration'
 RULE = ('a case is one recording: a generated design plan (1-7 wires of width 1-64 driven by Wire.put pokes between clk() '
-        'calls, py4hw.Sequence blocks, Counter, Buf and Reg copies; in 30% one or two extra clock domains -- ungated, or gated by a poked / Sequence-driven 1-bit wire that really closes -- instantiated before or after the recorder domain, each with its own Sequence and a share of the clocked blocks; 1-bit stimulus partly written as Python bools; in 15% the parent of the recorder is a primitive (a Buf) instead of the system / a structural block; in 25% a Sequence/Reg leaf next to the recorder carries its own (mostly gated) ClockDriver and is often the first clockable of that block; a watch list of 1-10 entries mixing Wire, InPort and OutPort '
+        'calls, py4hw.Sequence blocks, Counter, Buf and Reg copies; in 30% one or two extra clock domains -- ungated, or gated by a poked / Sequence-driven wire that really closes (1 bit, or in 60% of the gated drivers widened to 2, 3, 8 bits with a history over 0, 1, 2, 3, all-ones and all-ones-minus-1; the own domain of the recorder included) -- instantiated before or after the recorder domain, each with its own Sequence and a share of the clocked blocks; 1-bit stimulus partly written as Python bools; in 15% the parent of the recorder is a primitive (a Buf) instead of the system / a structural block; in 25% a Sequence/Reg leaf next to the recorder carries its own (mostly gated) ClockDriver and is often the first clockable of that block; a watch list of 1-10 entries mixing Wire, InPort and OutPort '
         'objects with duplicates and port+wire aliases and, in 30%, FieldInspector / ValueFormatter rows at any position; in 25% the recorder is attached after the simulator exists (warm-up cycles and/or a Scope) and the simulator refreshed with getSimulator(); a random order of the leaves around probe-before < Waveform < probe-after) '
         '(wires may share a short name across two scopes) plus a step list (clk(n) calls with n in 0..40, pokes, clear(), checkpoints) totalling 0-200 cycles; value histories are '
         'built from small per-wire pools with forced run lengths 1-9 so that values repeat and return. Every checkpoint compares '
@@ -326,6 +326,38 @@ def add_clock_names(rnd, plan):
     return plan
 
 
+def add_wide_enables(rnd, plan):
+    """enable wires are not only 1 bit wide: the enable of any extra driver (domain box, leaf, the recorder's own block) may be a
+    2, 3 or 8 bit wire (a pending-request count, a mode word) whose history takes 0, 1, 2, 3 and the all-ones value.  The zeros of
+    the original 1-bit history stay zeros, every non-zero sample becomes one of the non-zero values of the wider wire.  Drawn from a
+    stream of its own: the rest of the plan is what it was."""
+    wires = plan['wires']
+    gates = [d['gate'] for d in plan.get('domains') or []] + [sp['leafclk']['gate'] for sp in wires if sp.get('leafclk')]
+    if plan.get('wfdom'):
+        gates.append(plan['wfdom']['gate'])
+    for g in sorted({g for g in gates if g is not None}):
+        sp = wires[g]
+        if sp['width'] != 1 or rnd.random() < 0.4:
+            continue
+        w = rnd.choice([2, 2, 3, 8])
+        nz = sorted({1, 2, 3, (1 << w) - 1, (1 << w) - 2})
+        nz = rnd.sample(nz, rnd.randint(2, len(nz)))
+        if all(v < 2 for v in nz):
+            nz.append(rnd.choice([2, 3, (1 << w) - 1]))
+        sp['width'] = w
+        sp['wide_enable'] = True
+        sp.pop('asbool', None)
+        if sp['kind'] == 'seq':
+            sp['values'] = [0 if v == 0 else rnd.choice(nz) for v in sp['values']]
+        else:
+            sp['pool'] = [0] + nz
+            for st in plan['steps']:
+                for pk in st.get('pokes') or []:
+                    if pk[0] == g and pk[1] != 0:
+                        pk[1] = rnd.choice(nz)
+    return plan
+
+
 # --------------------------------------------------------------------------- execution + judgement
 
 def _classes():
@@ -524,7 +556,12 @@ def run_plan(plan, stats=None):
     def cycle_with_snapshot():
         if samename_gates and any(g.get() == 0 for g in samename_gates):
             cnt('cycles_with_gate_closed_on_a_driver_sharing_its_name')
+        if gates and any(g.get() >= 2 for g in gates):
+            cnt('cycles_with_a_clock_enable_value_ge_2')
         if wfgate is not None:
+            if wfgate.get() >= 2:
+                # non-zero enable: the recorder's domain has an edge, whatever the non-zero value is
+                cnt('cycles_recorder_domain_open_with_enable_value_ge_2')
             if wfgate.get() == 0:
                 # no edge in the recorder's own domain: not a cycle of this recorder
                 cnt('cycles_recorder_domain_gated_off')
@@ -737,6 +774,10 @@ def _features(plan):
                                                     'named_as_system_driver' if d['drvname'] == 'system' else 'named_as_another_driver'))
             if d['gate'] is not None and where != 'recorder_block' and not plan.get('wfdom'):
                 f.add('recorder_in_ungated_domain_with_gated_same_name_driver_elsewhere')
+    for d, where in ex_:
+        if d['gate'] is not None and plan['wires'][d['gate']].get('wide_enable'):
+            f.add('enable_wire_wider_than_1_bit_on_%s' % where)
+            f.add('enable_wire_%d_bits' % plan['wires'][d['gate']]['width'])
     if plan.get('wfdom'):
         f.add('recorder_in_gated_domain')
         if plan['wfdom'].get('drvname'):
@@ -800,9 +841,12 @@ NEED_FEATURES = ('duplicate_entry', 'port_wire_alias', 'clear', 'zero_cycles', '
                  'same_name_gated_driver_on_domain_before_named_as_system_driver', 'same_name_gated_driver_on_domain_after_named_as_system_driver',
                  'same_name_gated_driver_on_leaf_named_as_system_driver', 'same_name_gated_driver_on_domain_before_named_as_another_driver',
                  'recorder_in_ungated_domain_with_gated_same_name_driver_elsewhere', 'recorder_in_gated_domain',
-                 'recorder_in_gated_domain_whose_driver_shares_a_name')
+                 'recorder_in_gated_domain_whose_driver_shares_a_name',
+                 'enable_wire_wider_than_1_bit_on_recorder_block', 'enable_wire_wider_than_1_bit_on_domain_before', 'enable_wire_wider_than_1_bit_on_domain_after',
+                 'enable_wire_wider_than_1_bit_on_leaf', 'enable_wire_2_bits', 'enable_wire_3_bits', 'enable_wire_8_bits')
 NEED_COUNTERS = ('lanes_decoded', 'checkpoints', 'cycles', 'cycles_with_gate_closed_on_a_driver_sharing_its_name',
-                 'cycles_recorder_domain_gated_off', 'cycles_recorder_domain_open')
+                 'cycles_recorder_domain_gated_off', 'cycles_recorder_domain_open',
+                 'cycles_recorder_domain_open_with_enable_value_ge_2', 'cycles_with_a_clock_enable_value_ge_2')
 
 
 def run_check(run, tier, seed, shard):
@@ -811,6 +855,8 @@ def run_check(run, tier, seed, shard):
     run.assume('a recorder whose own block is a gated clock domain has one simulated cycle per edge of that domain: a cycle before which its '
                'domain\'s enable read 0 is not a cycle of this recorder (weakest reading, consistent with C10: the domain holds); every other '
                'cycle must give exactly one sample')
+    run.assume('an enable wire of any width gates its domain only while it reads 0 (ClockDriver: "When enable is 0, the clock will be gated"; C10: non-zero): '
+               'a cycle belongs to the recorder iff its own domain\'s enable was NON-ZERO going into the edge, also for values 2, 3, all-ones')
     run.assume('pre-edge value = what a clockable placed next to the recorder reads with Wire.get() in the clocking phase of the same '
                '_clk_cycle; the probes before and after the Waveform must agree (else inconclusive)')
     run.assume('WaveDrom format decoded as rendered by get_wavedrom: lanes x<one char per cycle>x; clock lane P<one dot per cycle>x; '
@@ -830,6 +876,7 @@ def run_check(run, tier, seed, shard):
             break
         rnd = rng(seed, 'C15', k)
         plan = add_clock_names(rng(seed, 'C15', 'clocknames', k), gen_plan(rnd))
+        plan = add_wide_enables(rng(seed, 'C15', 'wideenable', k), plan)
         try:
             with muted():
                 nev, nontriv, problems = run_plan(plan, stats)
